@@ -105,10 +105,18 @@ def vf1(ctx, c):
         if not setb or not addf:
             c.undecided(site + ":sequence", "rebuild-steps-not-in-the-write's-block", "set_buffer: %d, add_files: %d" % (len(setb), len(addf)), repo.loc(fn, node))
             continue
-        m = re.fullmatch(r"(\w+)\.get_buffer\(\)", U(setb[-1].args[0])) if setb[-1].args else None
+        arg_txt = U(setb[-1].args[0]) if setb[-1].args else ""
+        if setb[-1].args and isinstance(setb[-1].args[0], ast.Name):
+            # a local that holds the buffer (image = container.get_buffer()): bound once in this block
+            b_ = [x.value for st in before for x in ast.walk(st) if isinstance(x, ast.Assign) and any(U(t_) == arg_txt for t_ in x.targets)]
+            if len(b_) == 1:
+                arg_txt = U(b_[0])
+        m = re.fullmatch(r"(\w+)\.get_buffer\(\)", arg_txt) if setb[-1].args else None
         cont = m.group(1) if m else None
         good_add = [x for x in addf if U(x.func) == "%s.add_files" % cont and [U(a_) for a_ in x.args] == ["self.coco_file_list"]]
-        if cont is None:
+        if cont is None and setb[-1].args and isinstance(setb[-1].args[0], ast.Name) and arg_txt == U(setb[-1].args[0]):
+            c.undecided(site + ":sequence", "the buffer written is a local whose origin is not in this block", arg_txt, repo.loc(fn, node))
+        elif cont is None:
             c.finding(site + ":sequence", "the buffer written is %s" % (U(setb[-1].args[0])[:40] if setb[-1].args else "?"),
                       "save_virtual_file hands %s to the source file; it must be the buffer of the container that was just rebuilt" % (U(setb[-1].args[0]) if setb[-1].args else "?"), repo.loc(fn, node))
         elif not good_add:
@@ -230,6 +238,7 @@ def vf5(ctx, c):
     flat = flatten(repo, fn, depth=3)
     params = [p for p in fn.params if p != "self"]
     ap = params[0] if params else "append_mode"
+    from ..concrete import class_level_functions as _clf
     for kind, kcls in KINDS.items():
         kv = ctx.env.get("VirtualFileType.%s" % kind)
         if kv is None:
@@ -255,7 +264,7 @@ def vf5(ctx, c):
         env.update({"self.virtual_file_type": kv, "self.file_exists": False, ap: False, "self.coco_file_list": _Desc("self.coco_file_list")})
         events, notes = [], []
         try:
-            end = _run_concrete(body_without_doc(flat), env, events, notes)
+            end = _run_concrete(body_without_doc(flat), env, events, notes, functions=_clf(repo))
         except RecursionError:
             notes.append("recursion")
             end = None
@@ -290,7 +299,7 @@ def vf5(ctx, c):
         env2.update({"self.virtual_file_type": kv, "self.file_exists": True, ap: True, "self.coco_file_list": _Desc("self.coco_file_list")})
         ev2, nt2 = [], []
         try:
-            _run_concrete(body_without_doc(flat), env2, ev2, nt2, hooks={("os.path", "exists"): True, ("os.path", "isfile"): True})
+            _run_concrete(body_without_doc(flat), env2, ev2, nt2, hooks={("os.path", "exists"): True, ("os.path", "isfile"): True}, functions=_clf(repo))
         except RecursionError:
             nt2.append("recursion")
         reopen = [e for e in ev2 if e[0] == "call" and e[1] == "self" and e[2] in ("open_virtual_file", "get_coco_files")]
@@ -451,7 +460,10 @@ def cli4(ctx, c):
                     if opens != 1 or (first_add is not None and first_open is not None and first_open > first_add):
                         problems.append(("open", "the target is opened %d time(s)%s" % (opens, " after files were added" if opens else "")))
                     want_objs = [listing[i] for i in want]
-                    if [id(x) for x in adds] != [id(x) for x in want_objs]:
+                    if any(not isinstance(x, Obj) for x in adds):
+                        # a file that is not one of the listing's objects (an element of something the evaluator could not iterate): nothing is established
+                        notes.append("a file added is %s" % show_(next(x for x in adds if not isinstance(x, Obj))))
+                    elif [id(x) for x in adds] != [id(x) for x in want_objs]:
                         problems.append(("selection", "files added: %s; selected by the switches: %s" % ([show_(x) for x in adds], [show_(x) for x in want_objs])))
                     if len(saves) != 1:
                         problems.append(("save", "save_virtual_file is called %d time(s)" % len(saves)))
@@ -845,7 +857,7 @@ def vf2(ctx, c):
             if isinstance(n, ast.Call):
                 fn = U(n.func)
                 if fn == "open":
-                    mode = try_fold(n.args[1]) if len(n.args) > 1 else next((try_fold(k.value) for k in n.keywords if k.arg == "mode"), "r")
+                    mode = try_fold(n.args[1], ctx.env) if len(n.args) > 1 else next((try_fold(k.value, ctx.env) for k in n.keywords if k.arg == "mode"), "r")
                     opens.append((f, n, mode))
                 elif any(fn == w or (w.endswith(".") and fn.startswith(w)) or (w.endswith("(") and fn + "(" == w) for w in WRITE_APIS):
                     others.append((f, n, fn))
@@ -867,7 +879,9 @@ def vf2(ctx, c):
         c.finding("%s:%s" % (f.q, fn), "host file-system call %s" % fn,
                   "%s calls %s: host files must only be written through open(name, 'wb') in SourceFile.write_binary_contents, which truncates and writes the complete image "
                   "(os.open without O_TRUNC leaves the tail of a longer old file in place)" % (f.q, fn), repo.loc(f, n))
-    if "SourceFile.write_binary_contents" not in writers and not others:
+    if "SourceFile.write_binary_contents" not in writers and not others and any(not isinstance(m_, str) for _, _, m_ in opens):
+        c.undecided("SourceFile.write_binary_contents", "an open() mode is not a constant", "", "cocoasm/virtualfiles/source_file.py")
+    elif "SourceFile.write_binary_contents" not in writers and not others:
         c.finding("SourceFile.write_binary_contents", "no truncating write found", "no open(name, 'wb') found in SourceFile.write_binary_contents", "cocoasm/virtualfiles/source_file.py")
     # the written bytes are the whole buffer
     wb = repo.method("SourceFile", "write_binary_contents")
@@ -892,7 +906,10 @@ def vf2(ctx, c):
         for n in ast.walk(f.node):
             if isinstance(n, ast.Call) and U(n.func).endswith("write_binary_contents") and f.q != "SourceFile.write_binary_contents":
                 callers.append(f.q)
-    c.check(sorted(set(callers)) == ["SourceFile.write_file"], "write_binary_contents:callers", "called by SourceFile.write_file only", "called by %s" % sorted(set(callers)),
+    if not callers:
+        c.undecided("write_binary_contents:callers", "no direct call found (reached through a table or getattr)", "", "cocoasm/virtualfiles/source_file.py")
+    else:
+      c.check(sorted(set(callers)) == ["SourceFile.write_file"], "write_binary_contents:callers", "called by SourceFile.write_file only", "called by %s" % sorted(set(callers)),
             "write_binary_contents is called from %s" % sorted(set(callers)), "cocoasm/virtualfiles/source_file.py")
     callers2 = []
     for f in repo.all_funcs():
@@ -984,12 +1001,32 @@ def vf4(ctx, c):
                 if len(others) != 1:
                     continue
                 wrong = []
+                # the tests of the enclosing ifs that speak about the kinds are part of the condition under which the raise is reached
+                enclosing = []
+
+                def _walk_enc(node, stack):
+                    for fld_ in ("body", "orelse", "finalbody"):
+                        for ch in getattr(node, fld_, []) or []:
+                            nxt = stack + [(node.test, fld_ == "body")] if isinstance(node, ast.If) and fld_ in ("body", "orelse") else stack
+                            if ch is n_:
+                                enclosing.extend(nxt)
+                            _walk_enc(ch, nxt)
+                    for h_ in getattr(node, "handlers", []) or []:
+                        _walk_enc(h_, stack)
+                _walk_enc(ov_flat, [])
                 try:
                     for rq_name, rq in [("none", None)] + list(kv.items()):
                         for fd_name, fd in kv.items():
                             envt = dict(ctx.env)
                             envt.update({"self.virtual_file_type": rq, others[0]: fd})
-                            raised = bool(_fold(n_.test, envt))
+                            reach = True
+                            for t_enc, pos_ in enclosing:
+                                if "virtual_file_type" in U(t_enc):
+                                    try:
+                                        reach = reach and (bool(_fold(t_enc, envt)) == pos_)
+                                    except _NC:
+                                        pass
+                            raised = reach and bool(_fold(n_.test, envt))
                             if raised != (rq is not None and rq != fd):
                                 wrong.append((rq_name, fd_name, raised))
                 except _NC:
@@ -1076,13 +1113,68 @@ def vf4(ctx, c):
             if isinstance(n, ast.Name) and n.id in ("DiskFile", "CassetteFile"):
                 first.setdefault(n.id, (n.lineno, n.col_offset))
         order = [k for k, _ in sorted(first.items(), key=lambda kv: kv[1])]
-    if len(order) < 2:
+    # decided by evaluating get_coco_files for the three kinds of content: disk reader accepts / only the cassette reader accepts / neither does
+    from ..concrete import Obj as _Osn, ClsRef as _Csn, Desc as _Dsn, run_concrete as _rsn, _Raise as _Rsn
+    sn_problems, sn_notes = [], []
+    for label_, disk_ok, cas_ok, want_kind, want_list in (("a disk image", True, True, "DISK", "<disk listing>"), ("a cassette image", False, True, "CASSETTE", "<cassette listing>"),
+                                                           ("neither", False, False, "BINARY", [])):
+        envs = dict(ctx.env)
+        for cn_ in KINDS.values():
+            envs[cn_] = _Csn(cn_)
+        envs["VirtualFileValidationError"] = _Csn("VirtualFileValidationError")
+        consulted = []
+
+        def lister(r, a, _d=disk_ok, _c=cas_ok, _seen=consulted):
+            _seen.append(r.cls)
+            if r.cls == "DiskFile":
+                if _d:
+                    return _Dsn("<disk listing>")
+                raise _Rsn("raise:VirtualFileValidationError")
+            if r.cls == "CassetteFile":
+                if _c:
+                    return _Dsn("<cassette listing>")
+                raise _Rsn("raise:VirtualFileValidationError")
+            return _Dsn("<listing of %s>" % r.cls)
+        evs, nts = [], []
+        end_ = _rsn(body_without_doc(gc.node), envs, evs, nts, hooks={("*", "list_files"): lister})
+        sn_notes += nts
+        ret_ = envs.get("$return")
+        if nts:
+            continue
+        if end_ != "return" or not isinstance(ret_, (tuple, list)) or len(ret_) != 2:
+            sn_problems.append(("result", "for %s the method ends with %s / returns %r" % (label_, end_, ret_)))
+            continue
+        kind_ = getattr(ret_[1], "name", None)
+        lst_ = ret_[0] if not isinstance(ret_[0], _Dsn) else str(ret_[0])
+        if kind_ != want_kind:
+            sn_problems.append(("kind", "content that is %s is reported as %s" % (label_, kind_ or ret_[1])))
+        elif lst_ != want_list:
+            sn_problems.append(("listing", "for %s the files returned are %r" % (label_, lst_)))
+        if disk_ok and consulted and consulted[0] != "DiskFile":
+            sn_problems.append(("order", "the %s reader is consulted before the disk reader" % consulted[0]))
+    sniff_by_evaluation = not sn_notes
+    if sniff_by_evaluation:
+        if sn_problems:
+            seen_k = set()
+            for k_, t_ in sn_problems:
+                if k_ in seen_k:
+                    continue
+                seen_k.add(k_)
+                c.finding("get_coco_files:sniff:%s" % k_, t_[:110], "VirtualFile.get_coco_files, evaluated for the three kinds of content: %s; the disk reader decides first, then the cassette "
+                          "reader, and anything else is a raw binary with no files" % t_, repo.loc(gc, gc.node))
+        else:
+            c.ok("get_coco_files:sniff", "disk, then cassette, then binary with no files (3 kinds of content evaluated)", repo.loc(gc, gc.node))
+    if sniff_by_evaluation:
+        pass
+    elif len(order) < 2:
         c.undecided("get_coco_files:order", "sniffing-shape-not-recognised", str(order), repo.loc(gc, gc.node))
     else:
         c.check(order == ["DiskFile", "CassetteFile"], "get_coco_files:order", "disk, then cassette, then binary", "order %s" % order,
                 "get_coco_files sniffs in order %s; each later sniffer is more permissive, so the order must be disk, cassette, binary" % order, repo.loc(gc, gc.node))
     last = body_without_doc(gc.node)[-1]
-    if isinstance(last, ast.Return) and re.fullmatch(r"\(\[\], VirtualFileType\.BINARY\)", U(last.value)):
+    if sniff_by_evaluation:
+        pass
+    elif isinstance(last, ast.Return) and re.fullmatch(r"\(\[\], VirtualFileType\.BINARY\)", U(last.value)):
         c.ok("get_coco_files:fallback", "anything else is a raw binary with no files", repo.loc(gc, last))
     elif isinstance(last, ast.Return) and re.fullmatch(r"\(.*, VirtualFileType\.(\w+)\)", U(last.value)):
         c.finding("get_coco_files:fallback", "fallback %s" % U(last.value), "get_coco_files falls back to %s" % U(last.value), repo.loc(gc, last))
@@ -1286,7 +1378,7 @@ def cli1(ctx, c):
                 any(x not in gb.reachable(avoid_edges=[(t, not U(gb.nodes[t][2]).startswith("not"))]) for t in name_tests) for x in ctor_nodes)
             if guarded:
                 c.ok("assembler.main:%s:no-name" % sw, "without a name nothing is created", repo.loc(fn, b))
-            elif ctor_nodes and not name_tests and ".name" not in U(b):
+            elif ctor_nodes and not name_tests and ".name" not in U(b) and ".name" not in U(main_flat).split("CoCoFile(", 1)[-1].split(U(b.test), 1)[0]:
                 c.finding("assembler.main:%s:no-name" % sw, "no test of the file name before the container is built",
                           "assembler.py --%s is not guarded by the no-name check: a file without a name would be created" % sw, repo.loc(fn, b))
             else:
